@@ -327,6 +327,10 @@ class Alg:
                 return {"ceil": ceil_f, "floor": floor_f, "round": round_f, "trunc": trunc_f}[nm](inner)
             if nm in ("max", "min") and len(e["args"]) == 1:
                 return (max_f if nm == "max" else min_f)(self.conv(e["recv"]), self.conv(e["args"][0]))
+            if nm == "saturating_sub" and len(e["args"]) == 1 and typeof(e["recv"], self.tenv) == "int":
+                # a.saturating_sub(b) on unsigned integers == if a > b { a - b } else { 0 }
+                a_, b_ = self.conv(e["recv"]), self.conv(e["args"][0])
+                return sp.Piecewise((a_ - b_, sp.Gt(a_, b_)), (sp.Integer(0), True))
             if nm == "div_ceil" and len(e["args"]) == 1:
                 return sp.Function("cdiv")(self.conv(e["recv"]), self.conv(e["args"][0]))
             if nm in ("as_ref", "as_mut", "clone", "unwrap"):
